@@ -143,9 +143,9 @@ theorem matching_corrects_up_to_t {K : Type} [Field K] [LinearOrder K] [IsStrict
   rw [css_zrow_block H hcss e, css_xrow_block H hcss e] at hc
   have hlen : e.length = c.length := by omega
   refine ⟨c, ev, hd, ?_, ?_, in_codespace_of_same_syndrome H e c hlen hcs⟩
-  · rw [xPart_vxor e c hlen, hc, xPart_append _ _ (by rw [hsX.1, hsZ.1])]
+  · rw [xPart_vxor_dec e c hlen, hc, xPart_append_dec _ _ (by rw [hsX.1, hsZ.1])]
     exact hrX.2.2
-  · rw [zPart_vxor e c hlen, hc, zPart_append _ _ (by rw [hsX.1, hsZ.1])]
+  · rw [zPart_vxor_dec e c hlen, hc, zPart_append_dec _ _ (by rw [hsX.1, hsZ.1])]
     exact hrZ.2.2
 
 /-- a Pauli error of weight `≤ t` (panqec's `bsf_wt`) has at most `t` flips in each sector -/
@@ -171,8 +171,8 @@ theorem matching_sector_pairing {W : Type} (solve : WSolver W) (H : Mat) (n : Na
   have h2 := (hZ wz _ (feasible_x H hcss e n he)).1
   simp only [Option.getD_some] at hc
   refine ⟨c, ev, hd, ?_, ?_⟩
-  · rw [hc]; exact xPart_append _ _ (by rw [h1, h2])
-  · rw [hc]; exact zPart_append _ _ (by rw [h1, h2])
+  · rw [hc]; exact xPart_append_dec _ _ (by rw [h1, h2])
+  · rw [hc]; exact zPart_append_dec _ _ (by rw [h1, h2])
 
 /-! ### non-vacuity -/
 
